@@ -1504,6 +1504,10 @@ def replay(obj):
         from . import c17_nested
         msg = c17_nested.oracle(list(f["nested_ops"]))
         return {"fails": msg is not None, "detail": msg}
+    if "record_oracle" in f:
+        from . import c17_nested
+        msg = c17_nested.record_oracle()
+        return {"fails": msg is not None, "detail": msg}
     if "blob_case" in f:
         from . import c17_nested
         kind, sk, seed, n_iter = f["blob_case"]
